@@ -79,6 +79,7 @@ pub fn plan_for(seed: u64, run: u64, files: &[(String, Vec<u8>)]) -> C07Plan {
         // boundaries, at both ends and on a stride in between
         let k = ModelKnobs {
             max_entries: if run % 150 == 149 { 1500 } else if rng.chance(1, 10) { 40 } else { 8 },
+            extreme_values: run % 8 == 7,
             ..ModelKnobs::default()
         };
         ModelSrc::Gen(gen_model(&mut rng, &k))
@@ -98,7 +99,8 @@ pub fn plan_for(seed: u64, run: u64, files: &[(String, Vec<u8>)]) -> C07Plan {
     let mut suffixes = vec![vec![0u8], MODEL_MAGIC.to_vec()];
     let n = rng.range(1, 40);
     suffixes.push((0..n).map(|_| rng.below(256) as u8).collect());
-    let texts = (0..4).map(|_| gen::gen_text(&mut rng)).collect();
+    // models with extreme weights are serialisation stress only: no texts, no predictions
+    let texts = if matches!(src, ModelSrc::Gen(_)) && run % 8 == 7 { vec![] } else { (0..4).map(|_| gen::gen_text(&mut rng)).collect() };
     C07Plan { src, write_scheds, read_scheds, chunk_sched, suffixes, texts, only: None }
 }
 
@@ -147,6 +149,9 @@ fn load(bytes: &[u8]) -> Option<Result<Model, String>> {
 
 fn predictions(bytes_of: &dyn Fn() -> Option<Model>, texts: &[String]) -> Option<Vec<String>> {
     let mut out = vec![];
+    if texts.is_empty() {
+        return Some(out);
+    }
     for tags in [false, true] {
         let m = bytes_of()?;
         let mut p = Predictor::new(m, tags).ok()?;
